@@ -20,16 +20,17 @@ const FillerText = "..."
 
 // World remembers pointer identities and deep snapshots of everything built for one case.
 type World struct {
-	Unit     time.Duration
-	itemID   map[*astisub.Item]int
-	snap     map[int]*astisub.Item // id -> deep copy at build time
-	origSt   map[int]*astisub.Style
-	origRg   map[int]*astisub.Region
-	textAtom map[string]int
-	Decorate bool
-	Scheme   int  // how the even text atoms are laid out (see Build)
-	DecoRefs bool // decorated cues without a style / region of their own get a detached one (carried along by the operations)
-	Twins    bool // a style's parent pointer is an object of its own carrying the parent's ID, not the object the list defines
+	Unit      time.Duration
+	itemID    map[*astisub.Item]int
+	snap      map[int]*astisub.Item // id -> deep copy at build time
+	origSt    map[int]*astisub.Style
+	origRg    map[int]*astisub.Region
+	textAtom  map[string]int
+	Decorate  bool
+	Scheme    int  // how the even text atoms are laid out (see Build)
+	DecoRefs  bool // decorated cues without a style / region of their own get a detached one (carried along by the operations)
+	SplitRuns bool // cues with an even identifier hold their text in two runs, the others in one: the same text
+	Twins     bool // a style's parent pointer is an object of its own carrying the parent's ID, not the object the list defines
 }
 
 func NewWorld(unit time.Duration, decorate bool) *World {
@@ -46,8 +47,7 @@ func TextKey(it *astisub.Item) string {
 	var b strings.Builder
 	for _, l := range it.Lines {
 		for _, li := range l.Items {
-			b.WriteString(li.Text)
-			b.WriteByte(0x1f)
+			b.WriteString(li.Text) // how a line's text is split into runs is styling, not text
 		}
 		b.WriteByte(0x1e)
 	}
@@ -131,7 +131,9 @@ func (w *World) Build(a abs.Subs) *astisub.Subtitles {
 				txt, second = "Text", strconv.Itoa(c.T-1)
 			}
 		}
-		if len(c.Rs) == 0 {
+		if len(c.Rs) == 0 && w.SplitRuns && c.ID%2 == 0 && len(txt) > 2 {
+			it.Lines = []astisub.Line{{Items: []astisub.LineItem{{Text: txt[:2]}, {Text: txt[2:]}}}}
+		} else if len(c.Rs) == 0 {
 			it.Lines = []astisub.Line{{Items: []astisub.LineItem{{Text: txt}}}}
 		} else {
 			// one run per referenced run style; the text is split over the runs (Item.String() joins them)
@@ -329,6 +331,7 @@ func Exec(n int, c abs.OpCase, unit time.Duration, decorate bool) []abs.OpEvent 
 	w := NewWorld(unit, decorate)
 	w.Scheme = n % 3
 	w.Twins = n%5 == 4
+	w.SplitRuns = (c.Op == "unfragment" || c.Op == "fragment+unfragment") && n%2 == 1
 	w.DecoRefs = !(c.Op == "optimize" || c.Op == "removestyling" || c.Op == "merge")
 	if c.Op == "optimize" || c.Op == "removestyling" || c.Op == "merge" {
 		w.Scheme = 0 // those lists are also written to files: an empty first line or no line at all is not representable there
